@@ -24,7 +24,7 @@ import traceback
 
 MAX_REPORTED = 8  # distinct unlisted violations replayed and reported per run
 VERIF = os.path.dirname(os.path.dirname(os.path.abspath(__file__)))
-REPO_SRC = "/repo/src/optyx"
+REPO_SRC = (os.environ.get("VERIF_OPTYX_SRC") or "/repo/src") + "/optyx"
 
 
 # --------------------------------------------------------------------------
@@ -105,6 +105,9 @@ def _worker_init(modname, tier, seed, lines):
         _MOD.worker_init(tier, seed)
     from vf.engine import smt
     smt.CROSS["every"] = int(os.environ.get("VERIF_CROSS_EVERY", "60" if tier == "thorough" else "0") or 0)
+    if tier == "thorough":
+        smt.RATNORM_CROSS_EVERY = 20
+        smt.RATNORM_CROSS_TIMEOUT_MS = 8000
     signal.signal(signal.SIGALRM, _alarm)
 
 
@@ -175,8 +178,9 @@ def write_replay(pid, payload):
 def run_replay(path, timeout=300):
     """-> (reproduced: bool|None, detail)"""
     try:
+        src = os.environ.get("VERIF_OPTYX_SRC")
         p = subprocess.run([sys.executable, "-m", "vf.replay", path], cwd=VERIF, capture_output=True,
-                           text=True, timeout=timeout, env=dict(os.environ, PYTHONPATH=VERIF))
+                           text=True, timeout=timeout, env=dict(os.environ, PYTHONPATH=(src + ":" if src else "") + VERIF))
     except subprocess.TimeoutExpired:
         return None, "replay timed out"
     out = (p.stdout or "").strip().splitlines()
@@ -385,8 +389,9 @@ def main(argv=None):
             "jobs": a.jobs,
         },
     }
-    os.makedirs(os.path.join(VERIF, "evidence"), exist_ok=True)
-    with open(os.path.join(VERIF, "evidence", f"{pid}.json"), "w") as fh:
+    evdir = os.environ.get("VERIF_EVIDENCE_DIR") or os.path.join(VERIF, "evidence")
+    os.makedirs(evdir, exist_ok=True)
+    with open(os.path.join(evdir, f"{pid}.json"), "w") as fh:
         json.dump(evidence, fh, indent=1, default=str)
 
     print(f"[{pid}/{tier}] items={len(items)} paths={agg['paths']} queries={agg['queries']} proved={n_proved} "
